@@ -34,9 +34,9 @@ func (w *jsonWorld) Gen(seed uint64, tier string) *Plan {
 		cfg.Dom = []int{4, 8, 12, 16, 24, 32}[r.Intn(6)]
 	}
 	if w.prop == "C12" && usesCmp(cfg.Kind) && r.P(2, 3) {
-		cfg.Cmp = r.PickS("nat", "rev") // mostly identity classes; coarsened comparators keep their share
+		cfg.Cmp = r.PickS("nat", "rev", "natbig") // mostly identity classes; coarsened comparators keep their share
 		if cfg.Kind == "treebidimap" {
-			cfg.VCmp = r.PickS("nat", "rev")
+			cfg.VCmp = r.PickS("nat", "rev", "natbig")
 		}
 	}
 	p := &Plan{World: "json", Cfg: cfg}
